@@ -55,6 +55,9 @@ type Scenario struct {
 	// own, while the node's context is alive) | canceled (wrapping context.Canceled).
 	FailAt   int    `json:"fail_at,omitempty"`
 	FailKind string `json:"fail_kind,omitempty"`
+	// RealProd: productions are the node's REAL production step (sequencing double, execution double whose
+	// ExecuteTxs takes DurNs[k] and honours its context, real store) instead of a stub that only takes time.
+	RealProd bool `json:"real_prod,omitempty"`
 }
 
 func (sc Scenario) dur(k int) int64 {
@@ -172,7 +175,8 @@ func genScenario(t *rapid.T) Scenario {
 	for i := 0; i < nn; i++ {
 		sc.Notifs = append(sc.Notifs, genNotif(t, &sc))
 	}
-	if sc.Lazy && rapid.IntRange(0, 5).Draw(t, "failing") == 0 {
+	sc.RealProd = rapid.IntRange(0, 4).Draw(t, "realprod") == 0
+	if sc.Lazy && !sc.RealProd && rapid.IntRange(0, 5).Draw(t, "failing") == 0 {
 		sc.FailAt = 1 + rapid.IntRange(0, 6).Draw(t, "failat")
 		sc.FailKind = rapid.SampledFrom([]string{"generic", "deadline", "canceled"}).Draw(t, "failkind")
 	}
@@ -330,6 +334,24 @@ func execute(sc Scenario, withNotifs bool, dir string) (tr *trace) {
 			for _, nf := range byProd[k] {
 				wg.Add(1)
 				go notify(nf)
+			}
+			if sc.RealProd {
+				exec.Latency = time.Duration(sc.dur(k))
+				seq.Drain()
+				if k%2 == 0 {
+					seq.Push(world.SeqResp{Kind: "empty"})
+				} else {
+					seq.Push(world.SeqResp{Kind: "txs", Txs: [][]byte{[]byte(fmt.Sprintf("c17-tx-%d", k))}})
+				}
+				err := m.VerifPublishBlock(pctx)
+				if pctx.Err() != nil {
+					return nil // cancelled at the horizon: production k stays "not done"
+				}
+				tr.mu.Lock()
+				tr.seq++
+				tr.prods[k].E, tr.prods[k].eSeq, tr.prods[k].done = now(), tr.seq, true
+				tr.mu.Unlock()
+				return err
 			}
 			if d := sc.dur(k); d > 0 {
 				tm := time.NewTimer(time.Duration(d))
@@ -766,6 +788,9 @@ func run(sc Scenario, dir string) world.Verdict {
 
 	// non-triviality and labels
 	labels := map[string]bool{}
+	if sc.RealProd {
+		labels["real-production-step"] = true
+	}
 	if tr.failed {
 		labels["production-fails:"+sc.FailKind] = true
 	}
